@@ -90,7 +90,9 @@ def main():
             print(letter, "does not apply:", out[:200]); continue
         st = suite(wt)
         sh("git checkout -- .", wt)
-        name = "%s-%s" % (prop.lower(), letter)
+        base = os.path.basename(wt.rstrip("/"))
+        rnd = base[:-len(prop)] if base.lower().endswith(prop.lower()) else ""
+        name = "%s%s-%s" % ((rnd + "-") if rnd and rnd != "rf" else "", prop.lower(), letter)
         dst = os.path.join(VERIF, "refactors", name)
         os.makedirs(dst, exist_ok=True)
         shutil.copy(diff, os.path.join(dst, "patch.diff"))
